@@ -32,6 +32,7 @@ type Effect struct {
 	Fn    *ssa.Function // function containing the instruction
 	Ins   ssa.Instruction
 	Local bool // store into a local (non-escaping) allocation
+	Act   *Summary // activation the instruction was evaluated in
 }
 
 // Ret is one return site.
@@ -51,6 +52,8 @@ type Summary struct {
 	Panics  Ref // condition under which an explicit panic is reached
 	Loops   int
 	Mem     map[string]*E // forwarded memory at the end of the activation (address key -> value)
+	Parent  *Summary        // inlined activations: the calling activation
+	Site    ssa.Instruction // inlined activations: the call instruction in the parent
 }
 
 // Gate is the evaluator.
@@ -421,6 +424,7 @@ func (f *frame) val(v ssa.Value) *E {
 
 func (f *frame) addEffect(e Effect) {
 	e.Fn = f.fn
+	e.Act = f.sum
 	if (e.Kind == "store" || e.Kind == "mapupdate") && e.Val != nil && e.Cond != True {
 		// the written value as it is on the paths that reach the write
 		e.Val = f.g.U.Under(e.Val, e.Cond)
@@ -679,6 +683,7 @@ func (f *frame) call(in ssa.Instruction, c *ssa.CallCommon, rc Ref, typ types.Ty
 		f.g.nextDepthBase = saveBase
 		if sub != nil {
 			f.g.Subs = append(f.g.Subs, sub)
+			sub.Parent, sub.Site = f.sum, in
 			f.sum.Effects = append(f.sum.Effects, sub.Effects...)
 			f.sum.Panics = u.bdd.Or(f.sum.Panics, sub.Panics)
 			v := f.retValue(sub, rc, typ)
